@@ -440,6 +440,8 @@ def discharge(site, fx, policy):
             return None
         if kind == "index-call":
             x, rng = args[0], F.strip(args[1])
+            if (rng.get("k") == "Adt" and rng["adt"].endswith("RangeFull")) or rng.get("ty", "").endswith("RangeFull"):
+                return "D-full-range: x[..] cannot fail"
             if rng.get("k") == "Adt" and rng["adt"].endswith(("RangeFrom", "RangeTo")):
                 bound = rng["fields"][0]["e"]
                 r = pos_over_same(x, bound, fam)
